@@ -543,6 +543,21 @@ func (r *run) runStream() {
 			overAt = t.Draw(core.Fault, hp.nBatches)
 		}
 	}
+	// every stream property: now and then an input-caused refusal early in the history (a batch
+	// with more parents than the 16-bit ids allow) - the stream that follows a refused batch is
+	// one more history, and the batches after it must round-trip, stay well framed and keep
+	// their dictionaries bounded like any others
+	if prop != "C15" && over == "" && t.Chance(core.Ext, 1, 60) {
+		kinds := map[string][]string{"traces": {"spans_with_attrs", "spans_with_events", "spans_mixed_related", "resources"}, "logs": {"logs_with_attrs", "scopes"}, "metrics": {"metrics"}}[hp.signals[t.Draw(core.Ext, len(hp.signals))]]
+		over = kinds[t.Draw(core.Ext, len(kinds))]
+		overAt = t.Draw(core.Ext, 2)
+		if overAt >= hp.nBatches {
+			overAt = 0
+		}
+		if hp.nBatches < 3 {
+			hp.nBatches += 2
+		}
+	}
 	// C01-C03: now and then a marathon stream: every batch is small but the
 	// cumulative number of id-bearing parents exceeds the 16-bit id range
 	marathon := false
@@ -643,7 +658,7 @@ func (r *run) runStream() {
 			break
 		}
 		if err != nil {
-			if prop == "C15" {
+			if prop == "C15" || (over != "" && i == overAt) {
 				// an input-caused encode error: the history goes on
 				r.fault("encode_error")
 				continue
